@@ -169,7 +169,7 @@ def eval (defs : Defs) (fuel : Nat) (n : Name) (v : DTValue) : Option DTValue :=
 def check (defs : Defs) (fuel : Nat) (t : ItemDef) (v : DTValue) : DTValue :=
   checkWith (evaluator defs fuel) t v
 
-/-! ## `build_variable_evaluator` (`mod.rs:155-269`): nine closures -/
+/-! ## `build_variable_evaluator` (`mod.rs:155-277`): ten closures -/
 
 /-- The type reference of an input-data / decision-output variable. -/
 inductive VarType where
@@ -177,6 +177,37 @@ inductive VarType where
   | simple (t : Simple)
   | named (n : Name)
   deriving Repr, Inhabited, DecidableEq
+
+/-- white space around a type reference (the characters an attribute value or a text node of
+the model document can carry there) -/
+def isWs (c : Char) : Bool := c == ' ' || c == '\t' || c == '\n' || c == '\r'
+
+/-- `str::trim` -/
+def trim (s : Name) : Name := ((s.dropWhile isWs).reverse.dropWhile isWs).reverse
+
+/-- the arms `"string" => … "yearMonthDuration" => …` of `build_variable_evaluator` (`mod.rs:174-253`) -/
+def simpleOfName (n : Name) : Option Simple :=
+  if n = "string".toList then some .string
+  else if n = "number".toList then some .number
+  else if n = "boolean".toList then some .boolean
+  else if n = "date".toList then some .date
+  else if n = "time".toList then some .time
+  else if n = "dateTime".toList then some .dateTime
+  else if n = "dayTimeDuration".toList then some .dtDur
+  else if n = "yearMonthDuration".toList then some .ymDur
+  else none
+
+/-- Which closure `build_variable_evaluator` builds for the `typeRef` attribute of a variable:
+`Variable::try_from` keeps the reference without the white space around it (`mod.rs:138`); no
+reference and the reference `Any` give the closure that hands the entry on as it is
+(`mod.rs:158-167`, `:254-261`), one of the eight built-in names the closure that checks the kind
+of value, anything else the closure that asks the item definition of that name. -/
+def VarType.ofRef : Option Name → VarType
+  | Option.none => .none
+  | some r =>
+    match simpleOfName (trim r) with
+    | some t => .simple t
+    | Option.none => if trim r = "Any".toList then .none else .named (trim r)
 
 /-- The closure: looks the variable up in the input context and checks its type; the result is
 the value bound to the variable's name in the decision's scope. -/
